@@ -226,4 +226,22 @@ Definition run_uni_zc_fullsync (N : Z) (M k : nat) (progs : list (list cop)) (sc
   let b := ub _ (q _ s) in let a := ua _ (q _ s) in
   concat lines ++ [9; fhead b; ftail b; fhead a; ftail a].
 
+(* ... with the sequence counters of both rings starting at `origin` (C15: the verif sequence_origin hook) *)
+Definition run_uni_zc_atomic_at (origin : Z) (N : Z) (M k : nat) (progs : list (list cop)) (sched : list nat) : list Z :=
+  let a0 := pfill st (step N u32 i32) start (init_at (u32 origin)) (ids_upto N) 0 in
+  let q0 := {| ua := a0; ub := init_at (u32 origin); upool := fun _ => 0; uthr := fun _ => UIdle; ulog := []; uheld := fun _ => None |} in
+  let '(s, lines) := crun (ust st) (ustep st (step N u32 i32) start ring_idle0 log true (fun _ => 0)) (ustart st start true)
+                          (uidle st) (ulog st) (uobs st (obs N u32) true) (urelease st start) M k (wake_rule_atomic M)
+                          (cinit (ust st) k q0) (cprogs_of progs) sched in
+  let b := ub _ (q _ s) in let a := ua _ (q _ s) in
+  concat lines ++ [9; head b; tail b; etail b; dhead b; head a; tail a].
+Definition run_uni_zc_fullsync_at (origin : Z) (N : Z) (M k : nat) (progs : list (list cop)) (sched : list nat) : list Z :=
+  let a0 := pfill fsst (fstep N u32) fstart (finit_at (u32 origin)) (ids_upto N) 0 in
+  let q0 := {| ua := a0; ub := finit_at (u32 origin); upool := fun _ => 0; uthr := fun _ => UIdle; ulog := []; uheld := fun _ => None |} in
+  let '(s, lines) := crun (ust fsst) (ustep fsst (fstep N u32) fstart fs_idle0 flog false (fun b => u32 (ftail b - fhead b))) (ustart fsst fstart false)
+                          (uidle fsst) (ulog fsst) (uobs fsst fobs false) (urelease fsst fstart) M k (wake_rule_fullsync M)
+                          (cinit (ust fsst) k q0) (cprogs_of progs) sched in
+  let b := ub _ (q _ s) in let a := ua _ (q _ s) in
+  concat lines ++ [9; fhead b; ftail b; fhead a; ftail a].
+
 End ZC.
